@@ -19,7 +19,71 @@ CORPUS = os.path.join(HERE, 'selftest_corpus.json')
 def load_corpus(prop):
     with open(CORPUS) as fh:
         allv = json.load(fh)
-    return [v for v in allv if v['property'] == prop]
+    out = [v for v in allv if v['property'] == prop]
+    verif = os.path.dirname(HERE)
+    # changes seeded by independent agents that this property's check is recorded to catch: they must keep firing
+    detf = os.path.join(verif, 'seeded', 'DETECTION.json')
+    if os.path.exists(detf):
+        det = json.load(open(detf))
+        for name in sorted(det):
+            pf = os.path.join(verif, 'seeded', name, 'patch.diff')
+            if prop in det[name] and os.path.exists(pf):
+                out.append({'property': prop, 'name': 'seeded:' + name, 'patch': pf, 'expect': 'fire'})
+    # behaviour-preserving refactorings of this property's code from independent agents: the check must stay silent
+    rdir = os.path.join(verif, 'refactors')
+    if os.path.isdir(rdir):
+        for name in sorted(os.listdir(rdir)):
+            mf, pf = os.path.join(rdir, name, 'meta.json'), os.path.join(rdir, name, 'patch.diff')
+            if os.path.exists(mf) and os.path.exists(pf):
+                try:
+                    m = json.load(open(mf))
+                except ValueError:
+                    continue
+                if m.get('agent_meta', {}).get('property') == prop and m.get('confirmed_behaviour_preserving'):
+                    out.append({'property': prop, 'name': 'refactor:' + name, 'patch': pf, 'expect': 'silent'})
+    return out
+
+
+def apply_unified_diff(sources, text):
+    """apply a `git diff` to the {module: source} map (python files under src/spectrum only); returns None or a reason"""
+    import re
+    cur = None
+    hunks = {}
+    for line in text.splitlines():
+        if line.startswith('+++ '):
+            m = re.match(r'\+\+\+ b/src/spectrum/([A-Za-z0-9_]+)\.py', line)
+            cur = m.group(1) if m else None
+            continue
+        if line.startswith(('diff --git', 'index ', '--- ', 'new file', 'deleted file', 'similarity', 'rename')):
+            continue
+        if line.startswith('@@'):
+            m = re.match(r'@@ -(\d+)(?:,(\d+))? \+(\d+)(?:,(\d+))? @@', line)
+            if cur is not None and m:
+                hunks.setdefault(cur, []).append([int(m.group(1)), []])
+            continue
+        if cur is not None and cur in hunks and hunks[cur] and line[:1] in (' ', '-', '+', ''):
+            hunks[cur][-1][1].append(line if line else ' ')
+    if not hunks:
+        return 'no python hunk under src/spectrum'
+    for mod, hs in hunks.items():
+        if mod not in sources:
+            return 'module %s not in the tree' % mod
+        lines = sources[mod].split('\n')
+        off = 0
+        for start, body in hs:
+            old = [b[1:] for b in body if b[:1] in (' ', '-')]
+            new = [b[1:] for b in body if b[:1] in (' ', '+')]
+            pos = start - 1 + off
+            if lines[pos:pos + len(old)] != old:
+                # look for the old block elsewhere (the file moved a little)
+                found = [i for i in range(len(lines) - len(old) + 1) if lines[i:i + len(old)] == old]
+                if len(found) != 1:
+                    return 'hunk at line %d of %s does not match the current source' % (start, mod)
+                pos = found[0]
+            lines[pos:pos + len(old)] = new
+            off += len(new) - len(old)
+        sources[mod] = '\n'.join(lines)
+    return None
 
 
 def _run_variant(job):
@@ -28,10 +92,15 @@ def _run_variant(job):
     sys.setrecursionlimit(10000)
     try:
         sources = read_repo_sources(src_dir)
-        mod = v['module']
-        if mod not in sources or sources[mod].count(v['old']) < 1:
-            return (v['name'], 'skipped', 'anchor text not found in %s' % mod, [])
-        sources[mod] = sources[mod].replace(v['old'], v['new'], v.get('count', 1))
+        if 'patch' in v:
+            why = apply_unified_diff(sources, open(v['patch']).read())
+            if why:
+                return (v['name'], 'skipped', why, [])
+        else:
+            mod = v['module']
+            if mod not in sources or sources[mod].count(v['old']) < 1:
+                return (v['name'], 'skipped', 'anchor text not found in %s' % mod, [])
+            sources[mod] = sources[mod].replace(v['old'], v['new'], v.get('count', 1))
         prog = Program(sources)
         rmod = importlib.import_module('sa.rules.%s' % prop.lower())
         rep = Report(prop)
